@@ -80,11 +80,14 @@ def gen_case(rng, sub=False):
             eps = ["%s!t" % rng.choice(ADDRS)]
         slices.append("%s>%s>%s>%s" % (owner, ons, "+".join(sp), "+".join(eps)))
     pods = []
+    sidecar = rng.chance(1, 3)
     for i in range(rng.below(4)):
         labels = "app=a" + (",v=1" if rng.chance(1, 2) else ",v=2")
         if rng.chance(1, 6):
             labels = "app=b"
-        pods.append("p%d>%s>%s>web/TCP/7070+adm/UDP/7071" % (i, ADDRS[i % len(ADDRS)], labels))
+        # one pod set in three has a sidecar container that reuses the port names under the other protocol, listed first (seed C14-6)
+        cports = "web/UDP/5353+adm/TCP/5354~web/TCP/7070+adm/UDP/7071" if sidecar else "web/TCP/7070+adm/UDP/7071"
+        pods.append("p%d>%s>%s>%s" % (i, ADDRS[i % len(ADDRS)], labels, cports))
     # backend reference
     f0 = ports[rng.below(len(ports))].split(">")
     r = rng.below(10)
